@@ -67,6 +67,8 @@ use tokio_tungstenite::tungstenite::Message as WsMsg;
 
 #[path = "c16_hammer.rs"]
 mod hammer;
+#[path = "c16_names.rs"]
+mod names;
 
 type Ws = tokio_tungstenite::WebSocketStream<tokio::net::TcpStream>;
 
@@ -1837,6 +1839,27 @@ pub fn run(args: &Args) -> Report {
     let max_failing: usize = std::env::var("RV_C16_MAX_FAILING").ok().and_then(|v| v.parse().ok()).unwrap_or(8);
     // (h) the hammer groups run first, all at once and with the machine otherwise quiet: what they need is
     // real parallelism between one connection's reader and its blocking-pool threads
+    // (n) names family (c16_names.rs): off-reader routes under long non-ASCII names as ordinary / panicking / saturating handlers
+    if args.replay.is_none() && !matches!(args.stage.as_str(), "hammer" | "notify-fill" | "flood") {
+        let t = Instant::now();
+        let hb2 = hb.clone();
+        let seed = args.seed;
+        match rt.block_on(async move { tokio::time::timeout(Duration::from_secs(120), names::run_names(seed, hb2)).await }) {
+            Ok(n) => {
+                for (sig, d, replay) in n.viols {
+                    rep.violation(sig, format!("{d} [names family]"), replay);
+                }
+                for i in n.inconcl {
+                    rep.inconclusive(i);
+                }
+                for (k, v) in n.counts {
+                    rep.set(k, json!(v));
+                }
+            }
+            Err(_) => rep.inconclusive("names family did not finish inside its 120 s watchdog"),
+        }
+        rep.set("names_phase_wall_ms", json!(t.elapsed().as_millis() as u64));
+    }
     let hammer_planned = hammer_cases.len();
     let hammer_started = Instant::now();
     let hammer_results: Vec<(hammer::HammerCase, CaseResult)> = rt.block_on(async {
